@@ -368,12 +368,24 @@ def run(prog, chk):
             l, r = path(strip(cs.get("lhs"))) or "", path(strip(cs.get("rhs"))) or ""
             if l.endswith("as_list.size") and r.endswith("as_list.capacity"):
                 return "false" if cs["op"] == ">=" else "true"
-        z = cfgq.zero_test(c, lambda e: path(strip(e)) == "new_elements")
+        z = cfgq.zero_test(c, lambda e: path(strip(e)) in realloc_results)
         if z is not None:
             return "false" if z == "true" else "true"
         return None
+    # locals that receive the result of realloc (also inside a grow helper inlined here)
+    realloc_results = set()
+    for (b, i, r, x) in ins.eval_sites():
+        if x.get("k") == "decl":
+            for v in x.get("vars", []):
+                if v.get("init") is not None and any(y.get("k") == "call" and y.get("callee") == "realloc" for y in walk(v["init"])):
+                    realloc_results.add(v["name"])
+        elif x.get("k") == "asg" and any(y.get("k") == "call" and y.get("callee") == "realloc" for y in walk(x.get("rhs"))):
+            if path(strip(x.get("lhs"))):
+                realloc_results.add(path(strip(x.get("lhs"))))
     re_ = cfgq.guard_edges(ins, room)
-    if writes and re_ and all(cfgq.must_pass_edge(ins, bid, re_) for (bid, i, a) in writes):
+    # path-sensitive in the status variables: a helper's failure code is tested by the caller
+    free_of_room = cfgq.fact_reach(ins, [ins.entry], removed_edges=re_) if re_ else None
+    if writes and re_ and all(bid not in free_of_room for (bid, i, a) in writes):
         r4.ok("cif_value_insert_element_at", "%d slot writes behind `size < capacity` or a successful realloc" % len(writes))
     else:
         r4.violation(ins.file, ins.name, ins.line, "slot-write-without-room", "a slot is written without room having been established")
